@@ -51,6 +51,12 @@ Theorem C12_contains_bytes_is_view : forall a b, wfb a = true -> wfb b = true ->
 Proof. exact contains_w_m_enc. Qed.
 Print Assumptions C12_contains_bytes_is_view.
 
+(* the recursion fuel of the model is enough for EVERY pair of buffers, valid or not: the fuel-exhausted outcome is
+   unreachable (each recursive call gets a slice of `right` that is at least 8 bytes shorter) *)
+Theorem C12_fuel_never_exhausted : forall l r, contains_jsonb_w (S (length r)) l r <> Err EFuel.
+Proof. exact contains_b_fuel. Qed.
+Print Assumptions C12_fuel_never_exhausted.
+
 (* not vacuous: a nested object/array with the number one as UInt64 1 on the left and as Float64 1.0 on the right
    (different payload bytes), and a top-level array that contains a bare scalar *)
 Definition c12_left : value :=
